@@ -5,6 +5,7 @@ TAG="$(basename "$WT")"
 cd "$WT" || exit 2
 export CARGO_NET_OFFLINE=true
 git diff --quiet -- . ':!patch.diff' && { echo "no change applied in worktree"; }
+git add -N -- logos-codegen src logos-derive logos-cli 2>/dev/null   # new files are part of the change
 git diff -- logos-codegen src logos-derive logos-cli > /tmp/confirm_$TAG.diff
 echo "--- demo WITH change (expect failure)"
 cargo test -p tests --test seeded_demo --offline > /tmp/confirm_${TAG}_with.out 2>&1; echo "exit=$?  $(grep -E '^test result' /tmp/confirm_${TAG}_with.out | tail -1)"
